@@ -5,6 +5,7 @@ import IceSpec.AgentMonC02
 import IceSpec.AgentMonC03
 import IceSpec.AgentMonC07
 import IceSpec.AgentMonC01
+import IceSpec.AgentMonC20
 /-!
 # Spec monitors over the IMPLEMENTATION's observable trace of the `agent` component
 
@@ -14,7 +15,7 @@ the harness (see harness/inpkg/zz_verif_agent_test.go) and never looks at the mo
 
 Layout: `AgentMonParse` (digest parser), `AgentMonState` (what is remembered, hub rules),
 `AgentMonC06` (C06 + C04), `AgentMonC02` (C02 + C05), `AgentMonC03` (C03 + C20), `AgentMonC07`,
-`AgentMonC01`; this file wires them to the operations.  See notes/AgentMon.md for the clause list.
+`AgentMonC01`, `AgentMonC20` (quiescent agreement, at a `mark`); this file wires them to the operations.  See notes/AgentMon.md for the clause list.
 -/
 namespace IceSpec.AgentMon
 
@@ -216,7 +217,8 @@ def stepActive (s : MonState) (toks : List String) (line : LineD) : MonState × 
     | _, _ => []
   let s1 : MonState := { s with a := ia, b := ib }
   let vMark := match toks, line.b with
-    | ["mark", "fairend"], some cb => c01Converged s1 line.a cb
+    | ["mark", "fairend"], some cb => c01Converged s1 line.a cb ++ c20Agreement s1 line.a cb
+    | "mark" :: _, some cb => c20Agreement s1 line.a cb
     | _, _ => []
   -- session-level bookkeeping
   let s1 := netsOf s1 p.a line.a
@@ -237,8 +239,14 @@ def stepActive (s : MonState) (toks : List String) (line : LineD) : MonState × 
     | "inject" :: _ | "data" :: _ => { s1 with forged := true }
     | "restart" :: _ => { s1 with anyRestart := true }
     | "close" :: _ => { s1 with anyClose := true }
-    | "renom" :: _ => if line.res == "ok" then { s1 with anyRenom := true } else s1
+    | "renom" :: _ =>
+      if line.res == "ok" then { s1 with anyRenom := true, renomEarly := s1.renomEarly || !(s.a.started && s.b.started) } else s1
     | _ => s1
+  let roleMovedNow : Bool :=
+    let moved (w : String) (p c : AgD) : Bool :=
+      p.ctl != c.ctl && !(match toks with | "start" :: who :: _ => who == w | _ => false)
+    moved "A" p.a line.a || (match p.b, line.b with | some pb, some cb => moved "B" pb cb | _, _ => false)
+  let s1 : MonState := if roleMovedNow then { s1 with roleMoved := true } else s1
   let s1 : MonState := match toks with
     | ["adv", _] => if s.infl.isEmpty then { s1 with fairRounds := s.fairRounds + 1, fairTime := s.fairTime + dt } else { s1 with fairRounds := 0, fairTime := 0 }
     | ["deliver", _] | ["mark", _] => s1
